@@ -37,7 +37,7 @@ def run_one(mid, prop, tier, seed):
         t0 = time.time()
         env = dict(os.environ, UFL_REPO=wt, VERIF_SEED=str(seed))
         r = sh(f"cd {ROOT} && ./check {prop} --tier {tier} --no-evidence", env=env)
-        lines = [ln for ln in r.stdout.splitlines() if ln.startswith(("violation", "VIOLATION", "HARNESS", "KNOWN"))]
+        lines = [ln for ln in r.stdout.splitlines() if ln.startswith(("violation", "VIOLATION", "HARNESS"))]
         status = {0: "missed", 1: "caught", 2: "harness-error"}.get(r.returncode, f"exit{r.returncode}")
         return mid, prop, {"status": status, "wall_s": round(time.time() - t0, 1), "tier": tier, "seed": seed,
                            "lines": [ln[:300] for ln in lines[:4]], "tail": r.stdout[-400:] if status != "caught" else ""}
